@@ -59,10 +59,16 @@ type Leaf struct {
 	Bad     [][]string `json:"bad"`
 }
 
+type Node struct {
+	ID    string `json:"id"`
+	Elems []Elem `json:"elems"`
+}
+
 type Universe struct {
 	Gammas  map[string]map[string]string `json:"gammas"`
 	Entries map[string][]Elem            `json:"entries"`
 	Leaves  []*Leaf                      `json:"leaves"`
+	Nodes   []*Node                      `json:"nodes"`
 
 	byID  map[string]*Leaf
 	gamma map[string]string
@@ -120,6 +126,19 @@ func (u *Universe) SetGamma(gamma string) error {
 }
 
 func (u *Universe) Leaf(id string) *Leaf { return u.byID[id] }
+
+// Node returns the request / delete node with the given id
+func (u *Universe) Node(id string) *Node {
+	for _, n := range u.Nodes {
+		if n.ID == id {
+			return n
+		}
+	}
+	return nil
+}
+
+// NodePath is gamma for nodes
+func (u *Universe) NodePath(n *Node) *sdcpb.Path { return u.ElemsPath(n.Elems) }
 
 func (u *Universe) resolve(v string) string {
 	if strings.HasPrefix(v, "$") {
